@@ -743,7 +743,16 @@ class KernelSim:
         tree = o.visit(tree)
         self.nparfor = o.count
         ast.fix_missing_locations(tree)
+        self.tree = tree
         self.code = compile(tree, f"<sim:{fdef.name}>", "exec")
+        # tuning knobs: integer literals >= 64 in the kernel (chunk sizes, block sizes, thresholds).  A simulated run may
+        # shrink them ("buggify") so that small workloads reach the paths that large inputs reach with the shipped values.
+        self.knobs = sorted({n.value for n in ast.walk(tree) if isinstance(n, ast.Constant) and type(n.value) is int and n.value >= 64})
+        names = {n.id for n in ast.walk(tree) if isinstance(n, ast.Name)}
+        # ... and module-level integer constants the kernel refers to (e.g. CHUNK = 16384)
+        self.global_knobs = sorted(k for k in names if type(py.__globals__.get(k)) is int and py.__globals__[k] >= 64)
+        self.knobs = self.knobs + [py.__globals__[k] for k in self.global_knobs]
+        self._knob_code = {}
         self.source_digest = __import__("hashlib").sha256(src.encode()).hexdigest()[:16]
         self.params = list(inspect.signature(py).parameters)
 
@@ -779,10 +788,30 @@ class KernelSim:
         g["int"] = nb_int
         return g
 
-    def run(self, sim, *args, **kwargs):
+    def code_for(self, knob_scale):
+        if not knob_scale or not any(type(n.value) is int and n.value >= 64 for n in ast.walk(self.tree) if isinstance(n, ast.Constant)):
+            return self.code
+        if knob_scale not in self._knob_code:
+            import copy
+
+            class Shrink(ast.NodeTransformer):
+                def visit_Constant(self, node):
+                    if type(node.value) is int and node.value >= 64:
+                        return ast.copy_location(ast.Constant(value=max(2, node.value // knob_scale)), node)
+                    return node
+
+            t = Shrink().visit(copy.deepcopy(self.tree))
+            ast.fix_missing_locations(t)
+            self._knob_code[knob_scale] = compile(t, f"<sim:{self.name}:knobs/{knob_scale}>", "exec")
+        return self._knob_code[knob_scale]
+
+    def run(self, sim, *args, knob_scale=None, **kwargs):
         g = self.patched_globals(self.py, sim, {})
+        if knob_scale:
+            for k in self.global_knobs:
+                g[k] = max(2, g[k] // knob_scale)
         g["__sim_parfor__"] = sim.parfor
-        exec(self.code, g)
+        exec(self.code_for(knob_scale), g)
         wrap = lambda x: SimArray(sim, x, hot=False) if isinstance(x, np.ndarray) else x
         args = tuple(wrap(a) for a in args)
         kwargs = {k: wrap(v) for k, v in kwargs.items()}
